@@ -87,7 +87,9 @@ def num_value(t):
     if '.' in t or 'e' in t:
         v = float(t)
         return v
-    return int(t)
+    v = int(t)
+    # an Excel number is a double: a whole number beyond 2^53 is the double nearest to it
+    return float(v) if v > 2 ** 53 else v
 
 
 _CMP = {'=', '<>', '<', '>', '<=', '>='}
